@@ -1668,6 +1668,18 @@ class GenerativeFunctionClosure(Generic[R], GenerativeFunction[R]):
         else:
             return self.gen_fn.edit(key, trace, edit_request, full_args)
 
+    def update(
+        self,
+        key: PRNGKey,
+        trace: Trace[R],
+        constraint: ChoiceMap,
+        argdiffs: Argdiffs,
+    ) -> tuple[Trace[R], Weight, Retdiff[R], ChoiceMap]:
+        # Go through this closure's `edit`, so that the stored arguments are prepended.
+        tr, w, rd, bwd = self.edit(key, trace, Update(constraint), argdiffs)
+        assert isinstance(bwd, Update), type(bwd)
+        return tr, w, rd, bwd.constraint
+
     def assess(
         self,
         sample: ChoiceMap,
